@@ -204,11 +204,6 @@ package hook
 //@   requires [outputs-read-only-after-zero-exit] hook.nProcess > 0 && hook.lastExitErr == nil
 //@   modifies hook.nOutputsRead
 //@   ghostset hook.nOutputsRead := hook.nOutputsRead + 1
-//@ package github.com/flant/shell-operator/pkg/hook/controller
-//@ trusted func (*HookController).UpdateSnapshots
-//@   modifies hook.lastRefreshIn, hook.lastRefreshOut
-//@   ghostset hook.lastRefreshIn := context
-//@   ghostset hook.lastRefreshOut := result
 //@ package github.com/flant/shell-operator/pkg/hook
 
 // C12: the process is started at most once, after all five files exist; a non-zero exit fails
@@ -221,7 +216,7 @@ package hook
 //@   prop C12, C18
 //@   requires [rate-limit-token] lastWaitHook == h && lastWaitErr == nil && h != nil
 //@   requires h.HookController != nil && h.Config != nil && (h.Config.Version == "v0" || h.Config.Version == "v1") && nProcess >= 0 && !fsExists[""]
-//@   modifies bctx.lastConvIn, bctx.lastConvVersion, bctx.lastConvOut, lastRefreshIn, lastRefreshOut
+//@   modifies bctx.lastConvIn, bctx.lastConvVersion, bctx.lastConvOut, lastRefreshIn, lastRefreshOut, controller.snapCount, controller.snapOf
 //@   modifies nRun, ranContexts, lastWaitHook, lastHookResult, lastHookErr, fsExists, ctxFileContent, nProcess, lastExitErr, nOutputsRead
 //@   ghostset nRun := nRun + 1
 //@   ghostset ranContexts := context
